@@ -7,6 +7,7 @@ package main
 import (
 	"bytes"
 	"fmt"
+	"io"
 	"os"
 	"strings"
 
@@ -265,14 +266,14 @@ func buildOne(sub uint64, files []string) *built {
 	case 0:
 		init := richInit(r)
 		b = &built{kind: "InitSegment(set)", desc: "CreateEmptyInit+AddEmptyTrack(+edts/elst,mehd)", roots: init.Children,
-			a: agg{"InitSegment(set)", init.Size, func(w *bytes.Buffer) error { return init.Encode(w) }, init.EncodeSW,
-				func(w *bytes.Buffer) error { return init.Info(w, "all:1", "", "  ") }}, isSeg: true}
+			a: agg{"InitSegment(set)", init.Size, func(w io.Writer) error { return init.Encode(w) }, init.EncodeSW,
+				func(w io.Writer) error { return init.Info(w, "all:1", "", "  ") }}, isSeg: true}
 	case 1:
 		seg := richSegment(r)
 		opt := seg.EncOptimize&mp4.OptimizeTrun != 0
 		b = &built{kind: "MediaSegment(set)", desc: "built segment", roots: segRoots(seg), opt: opt,
-			a: agg{"MediaSegment(set)", seg.Size, func(w *bytes.Buffer) error { return seg.Encode(w) }, seg.EncodeSW,
-				func(w *bytes.Buffer) error { return seg.Info(w, "all:1", "", "  ") }}, isSeg: true}
+			a: agg{"MediaSegment(set)", seg.Size, func(w io.Writer) error { return seg.Encode(w) }, seg.EncodeSW,
+				func(w io.Writer) error { return seg.Info(w, "all:1", "", "  ") }}, isSeg: true}
 	case 2:
 		init := richInit(r)
 		f := mp4.NewFile()
